@@ -6,6 +6,7 @@ import (
 	"gitee.com/Trisia/gotlcp/tlcp"
 	"net"
 	"sync"
+	"sync/atomic"
 )
 
 // ProtocolSwitchServerConn 自适应协议切换连接对象
@@ -15,7 +16,7 @@ type ProtocolSwitchServerConn struct {
 	lock    *sync.Mutex         // 防止并发调用
 	p       *ProtocolDetectConn // 协议检测对象
 	ln      *listener           // 监听器上下文
-	wrapped net.Conn            // 包装后的连接对象
+	wrapped atomic.Value        // 包装后的连接对象 (net.Conn)；首次 Read 与 Write 可能并发，因此原子访问
 }
 
 // NewProtocolSwitchServerConn 创建一个自适应协议切换连接对象
@@ -24,11 +25,10 @@ type ProtocolSwitchServerConn struct {
 func NewProtocolSwitchServerConn(ln *listener, rawConn net.Conn) *ProtocolSwitchServerConn {
 	p := &ProtocolDetectConn{Conn: rawConn}
 	return &ProtocolSwitchServerConn{
-		Conn:    rawConn,
-		ln:      ln,
-		p:       p,
-		lock:    new(sync.Mutex),
-		wrapped: nil,
+		Conn: rawConn,
+		ln:   ln,
+		p:    p,
+		lock: new(sync.Mutex),
 	}
 }
 
@@ -36,7 +36,7 @@ func NewProtocolSwitchServerConn(ln *listener, rawConn net.Conn) *ProtocolSwitch
 func (c *ProtocolSwitchServerConn) detect() error {
 	c.lock.Lock()
 	defer c.lock.Unlock()
-	if c.wrapped != nil {
+	if c.ProtectedConn() != nil {
 		return nil
 	}
 
@@ -51,13 +51,13 @@ func (c *ProtocolSwitchServerConn) detect() error {
 		if c.ln.tlcpCfg == nil {
 			return fmt.Errorf("pa: tlcp config not set")
 		}
-		c.wrapped = tlcp.Server(c.p, c.ln.tlcpCfg)
+		c.wrapped.Store(net.Conn(tlcp.Server(c.p, c.ln.tlcpCfg)))
 	case 0x03:
 		// SSL/TLS major version 0x03
 		if c.ln.tlsCfg == nil {
 			return fmt.Errorf("pa: tls config not set")
 		}
-		c.wrapped = tls.Server(c.p, c.ln.tlsCfg)
+		c.wrapped.Store(net.Conn(tls.Server(c.p, c.ln.tlsCfg)))
 	default:
 		return notSupportError
 	}
@@ -66,25 +66,30 @@ func (c *ProtocolSwitchServerConn) detect() error {
 
 // ProtectedConn 返回被保护的连接对象
 func (c *ProtocolSwitchServerConn) ProtectedConn() net.Conn {
-	return c.wrapped
+	conn, _ := c.wrapped.Load().(net.Conn)
+	return conn
 }
 
 func (c *ProtocolSwitchServerConn) Read(b []byte) (n int, err error) {
-	if c.wrapped == nil {
+	conn := c.ProtectedConn()
+	if conn == nil {
 		err = c.detect()
 		if err != nil {
 			return 0, err
 		}
+		conn = c.ProtectedConn()
 	}
-	return c.wrapped.Read(b)
+	return conn.Read(b)
 }
 
 func (c *ProtocolSwitchServerConn) Write(b []byte) (n int, err error) {
-	if c.wrapped == nil {
+	conn := c.ProtectedConn()
+	if conn == nil {
 		err = c.detect()
 		if err != nil {
 			return 0, err
 		}
+		conn = c.ProtectedConn()
 	}
-	return c.wrapped.Write(b)
+	return conn.Write(b)
 }
